@@ -267,7 +267,7 @@ def cli_cases(run, scratch):
     os.makedirs(d, exist_ok=True)
     text = '10 A$=STRING$(40,"*"):PLAY "CDE":HDRAW "U1"\n20 PRINT INSTR(1,A$,"*");HEX$(1)\n'
     out = []
-    for size in (1, 16, 31, 32, 33, 80, 255):
+    for size in (1, 16, 31, 32, 33, 80, 255, 256, 1000, 32767):
         for extra in ([], ["-l"], ["-z", "-w"]):
             run.states += 1
             run.transitions += 1
